@@ -7,6 +7,13 @@ bitwise with the run without logging; around every `FitOutputManager.iteration` 
 and the independent values of `model.state` are fingerprinted (hypotheses H2 / H1 of `logging_transparent`).
 Part B (history): fits, the three personalisations and simulate, repeated; after consuming numbers from python
 `random`, numpy and torch; after an unrelated fit in the same interpreter; compared bitwise.
+Draw programs (`draws_c11.py`, `Model/Draws.lean`): every seeded run of parts A and B (except the reference runs, which stay
+unrecorded so that every bitwise comparison is also a check that recording changes nothing) is recorded as a draw program — every
+seeding / state read / state write / draw of python `random`, numpy and torch with its call site.  The driver decides `seededFirst`
+(hence, by `seeded_prefix_irrelevant` / `draw_program_determines_result`, independence of process history) and `loggingDraws`
+((H2), by `h2_of_noLoggingDraws`); the generator events of one subject must be identical across logging requests and process
+histories (`same_draw_events_same_draws`), and so must the fingerprints of the three generators after seeding and at the end.
+Anything else is a broken correspondence: bitwise differential runs aimed at that subject search for a concrete failing input.
 """
 from __future__ import annotations
 
@@ -18,6 +25,7 @@ import tempfile
 
 from . import core
 from . import api_common as A
+from . import draws_c11 as D
 from .core import fmt_list
 
 PROP = "C11"
@@ -25,14 +33,20 @@ LEAN = dict(
     props="LeaspyVerif.Props.C11",
     driver="drivers/C11.lean",
     harness="c11_repro.py",
-    extra_modules=["LeaspyVerif.Model.Api"],
+    extra_modules=["LeaspyVerif.Model.Api", "LeaspyVerif.Model.Draws", "LeaspyVerif.Lemmas.Draws"],
     theorems=["logs_validation_table", "validate_outputs", "iteration_total", "log_schedule_total",
               "iteration_total_shipped_counterexample", "iteration_total_shipped_partial", "actions_fire_iff",
-              "logging_transparent", "logging_transparent_validated"],
+              "logging_transparent", "logging_transparent_validated",
+              "seeded_prefix_irrelevant", "seededFirst_iff_every_draw_after_its_seed", "seeded_prefix_irrelevant_counterexample",
+              "unseeded_generator_counterexample", "entropy_and_foreign_state_counterexample", "draws_logging_transparent",
+              "same_draw_events_same_draws", "draw_program_determines_result", "recorded_program_replays", "noLoggingDraws_iff",
+              "h2_of_noLoggingDraws", "logging_transparent_recorded"],
     trusted_extra=[
-        "global generator state (python random, numpy, torch), the file system and matplotlib are runtime facts: covered only by the differential runs (bitwise comparison of real seeded runs), not by theorems",
-        "logging_transparent assumes (H1) reads through model.state do not change the independent values and (H2) logging takes no draw; both are observed on the real code at every logged iteration of every run",
-        "the MCMC-SAEM iteration itself is an uninterpreted `step` respecting the abstraction (C01/C03 are about that)",
+        "the draw-program recorder harness/draws_c11.py (call-through wrappers on random.*, np.random.*, torch seeding / state functions, torch.Generator, scipy rvs; a TorchFunctionMode for torch draws): fail-closed by a continuity check (a generator that moved between two recorded events is reported as an event the analysis rejects), validated on every run by (a) bitwise equality of every recorded run with its unrecorded reference, (b) equality of generator fingerprints after seeding / at the end across histories, (c) the five seeded changes and the mutations listed in DESIGN",
+        "draws made in other processes (joblib / loky workers of scipy_minimize n_jobs>1) are outside the record: covered only by the bitwise differential runs of the n_jobs=2 subject",
+        "a recorded program is one path of the code: draws on paths that no recorded run takes (a logging action at an iteration number never reached) are not seen; the file system and matplotlib are runtime facts covered only by the differential runs",
+        "logging_transparent assumes (H1) reads through model.state do not change the independent values (C01; observed at every logged iteration of every run); (H2) logging takes no draw is decided on every recorded run (noLoggingDraws) and additionally observed by fingerprints around every FitOutputManager.iteration call",
+        "the MCMC-SAEM iteration itself is an uninterpreted `step` respecting the abstraction (C01/C03 are about that); the code as a deterministic function of the values it draws (`Draws.Code`) is an assumption of draw_program_determines_result",
     ],
     assumptions=["one interpreter, fixed PYTHONHASHSEED (set by ./check); CPU only",
                  "the only runtime fact entering validation is whether the target folder is non-empty"],
@@ -57,9 +71,8 @@ class Recorder:
         self._orig = {}
 
     def rng_digest(self):
-        E = self.E
-        return (A.obj_digest(pyrandom.getstate()), A.obj_digest(E.np.random.get_state()),
-                A.value_digest(E.torch.get_rng_state()))
+        # the unwrapped state readers: this monitor must not show up in the recorded draw program as a state read of the code
+        return D.global_fingerprints()
 
     def abs_digest(self, model):
         cl = A.variable_classes(model)
@@ -114,39 +127,186 @@ def full_digest(model):
     return A.obj_digest({n: A.value_digest(vals.get(n)) for n in cl["params"] + cl["pop"] + cl["ind"]})
 
 
+# ----------------------------------------------------------------------------------------- recorded draw programs
+class DrawBook:
+    """the draw programs recorded during this check run: (subject, variant, case, recorder, targeted search)"""
+
+    def __init__(self):
+        self.runs = []
+
+    def add(self, subject, variant, case, rec, search=None):
+        self.runs.append(dict(subject=subject, variant=variant, case=case, rec=rec, search=search))
+
+
+def parse_draws_answer(ans):
+    d = {}
+    for tok in ans.split(" "):
+        if "=" in tok:
+            k, v = tok.split("=", 1)
+            d[k] = v
+    return d
+
+
+def check_draw_programs(chk, book):
+    """One driver line per recorded run.  Required: seededfirst=1, loggingdraws=0; per subject: identical generator events
+    (python side: the event lists; model side: `sig`), identical generator fingerprints after seeding and at the end."""
+    if not book.runs:
+        return
+    out = chk.model([f"draws prog={r['rec'].program()}" for r in book.runs])
+    ref = {}
+    stats = {"recorded_runs": len(book.runs), "events": 0, "by_kind": {}, "sites": {}, "subjects": {}, "rejected": {}}
+    searched = set()
+    for r, ans in zip(book.runs, out):
+        rec = r["rec"]
+        a = parse_draws_answer(ans)
+        stats["events"] += len(rec.events)
+        for k, v in rec.counts().items():
+            stats["by_kind"][k] = stats["by_kind"].get(k, 0) + v
+        for e in rec.events:
+            if e.op != "n":
+                k = f"{e.site[0]}:{e.site[1]} [{e.cls}] {e.why or ''}".strip()
+                stats["sites"][k] = stats["sites"].get(k, 0) + 1
+        stats["subjects"][r["subject"]] = stats["subjects"].get(r["subject"], 0) + 1
+        chk.tag("draw_program_gens", a.get("gens", "?"))
+        problems = []
+        if "seededfirst" not in a:
+            problems.append(f"the driver did not analyse the program: {ans[:80]}")
+        else:
+            if a["seededfirst"] != "1":
+                fb = a.get("firstbad", "?")
+                i = int(fb.split(":")[0]) if fb.split(":")[0].isdigit() else -1
+                problems.append(f"not seeded-first: event {fb} = {rec.describe(i)}")
+            if a["loggingdraws"] != "0":
+                j = next((k for k, e in enumerate(rec.events) if e.cls == "l" and e.op in "sedpu"), -1)
+                problems.append(f"{a['loggingdraws']} generator-moving event(s) inside logging code, first: {rec.describe(j)}")
+        r0 = ref.setdefault(r["subject"], (r, a))
+        if r0[0] is not r:
+            rec0, a0 = r0[0]["rec"], r0[1]
+            same_py = rec.signature() == rec0.signature()
+            same_model = a.get("sig") == a0.get("sig")
+            if same_py != same_model:
+                chk.disagree({**r["case"], "draw_program": rec.program()[:2000]}, f"same-events={int(same_py)}", f"same-sig={int(same_model)}",
+                             "equality of the generator events of two recorded runs (harness) vs equality of the model's digests")
+            if not same_py:
+                i = D.first_difference(rec.signature(), rec0.signature())
+                ev = [e for e in rec.events if e.op != "n"]
+                ev0 = [e for e in rec0.events if e.op != "n"]
+                here = ev[i].describe() if i is not None and i < len(ev) else "<end of program>"
+                there = ev0[i].describe() if i is not None and i < len(ev0) else "<end of program>"
+                problems.append(f"generator events differ from those of the same subject under '{r0[0]['variant']}' at event {i}: {here} / there: {there}")
+            # (a generator that no event of either run touches is simply where the process left it: not compared)
+            touched = {e.g for e in rec.events if e.g is not None} | {e.g for e in rec0.events if e.g is not None}
+            which = [D.GEN_NAMES[g] for g in range(3) if g in touched and rec.fp_start[g] != rec0.fp_start[g]]
+            if which:
+                problems.append(f"generator state after seeding differs from the run under '{r0[0]['variant']}': {which}")
+            which = [D.GEN_NAMES[g] for g in range(3) if g in touched and rec.fp_end[g] != rec0.fp_end[g]]
+            if which:
+                problems.append(f"generator state at the end of the run differs from the run under '{r0[0]['variant']}': {which}")
+        if not problems:
+            continue
+        cj = {**r["case"], "draw_program": rec.program()[:3000]}
+        what = f"draw program of '{r['subject']}' [{r['variant']}]: " + "; ".join(problems)
+        if r["subject"] not in stats["rejected"] and len(stats["rejected"]) < 20:
+            stats["rejected"][r["subject"]] = what[:500]
+        chk.extra_cov["draw_programs"] = stats
+        found = None
+        key = (r["subject"], tuple(sorted(p.split(":")[0] for p in problems)))
+        if r["search"] is not None and key not in searched and len(searched) < 6:
+            searched.add(key)
+            try:
+                found = r["search"](a, rec)
+            except Exception as e:  # noqa
+                chk.note(f"targeted search for '{r['subject']}' raised {type(e).__name__}: {str(e)[:80]}")
+        elif key in searched:
+            continue          # the same defect of the same subject was searched already
+        if found is not None:
+            chk.impl_failure({**found[0], "draw_program_analysis": what[:600]}, found[1] + " — found by a search aimed at: " + what[:400])
+        else:
+            chk.disagree(cj, ans + f" fp_start={rec.fp_start} fp_end={rec.fp_end}",
+                         "seededfirst=1 loggingdraws=0, same generator events and generator fingerprints as the other runs of the subject", what)
+    stats["sites"] = dict(sorted(stats["sites"].items(), key=lambda kv: -kv[1])[:40])
+    chk.extra_cov["draw_programs"] = stats
+
+
 # ----------------------------------------------------------------------------------------- part A
 def log_case_json(c):
     return {"part": "logging", **c}
 
 
-def run_logging_case(chk, E, c, data, baseline, tmp):
-    """c: dict(path, print, save, plot, pp, ow, dne). Returns the implementation's canonical answer."""
+def log_kwargs(c, work):
+    kw = {}
+    for k, name in (("print", "print_periodicity"), ("save", "save_periodicity"), ("plot", "plot_periodicity"),
+                    ("pp", "plot_patient_periodicity")):
+        if c[k] is not None or c.get("explicit_none"):
+            kw[name] = c[k]
+    if c["path"]:
+        p = os.path.join(work, "logs")
+        kw["path"] = p
+        if c["dne"]:
+            os.makedirs(os.path.join(p, "plots"), exist_ok=True)
+            open(os.path.join(p, "plots", "old.txt"), "w").write("x")
+    if c["ow"]:
+        kw["overwrite_logs_folder"] = True
+    return kw
+
+
+def plain_fit_digest(E, data, c, n, tmp):
+    """unrecorded seeded fit with logging request c (None = no logging), n iterations: digest or None when it raises"""
+    work = tempfile.mkdtemp(prefix="srch_", dir=tmp)
+    cwd = os.getcwd()
+    os.chdir(work)
+    try:
+        m = E.model_factory("logistic", dimension=3, source_dimension=1)
+        try:
+            with core.quiet():
+                m.fit(data, "mcmc_saem", n_iter=n, n_burn_in_iter=2, seed=3, progress_bar=False, **(log_kwargs(c, work) if c else {}))
+        except Exception:  # noqa
+            return None
+        return (params_digest(m), full_digest(m))
+    finally:
+        os.chdir(cwd)
+        shutil.rmtree(work, ignore_errors=True)
+
+
+def logging_search(E, data, c, tmp):
+    """bitwise differential runs aimed at ONE logging request: longer fits (what a logging action draws at the last iteration
+    only shows in the next one)"""
+    def search(answer, rec):
+        for n in (N_ITER + 1, 2 * N_ITER + 3, 3 * N_ITER + 4):
+            base = plain_fit_digest(E, data, None, n, tmp)
+            got = plain_fit_digest(E, data, c, n, tmp)
+            if base is not None and got is not None and got != base:
+                return ({**log_case_json(c), "n": n},
+                        f"fit of {n} iterations: final parameters / latent values differ bitwise from the run without logging")
+        return None
+    return search
+
+
+def n_of(c):
+    return c.get("n") or N_ITER
+
+
+def run_logging_case(chk, E, c, data, baselines, tmp, book=None):
+    """c: dict(path, print, save, plot, pp, ow, dne[, n]). Returns the implementation's canonical answer."""
     work = tempfile.mkdtemp(prefix="run_", dir=tmp)
     cwd = os.getcwd()
     os.chdir(work)            # a save periodicity without path writes to ./_outputs
+    n_iter = n_of(c)
+    baseline = baselines(n_iter)
     try:
-        kw = {}
-        for k, name in (("print", "print_periodicity"), ("save", "save_periodicity"), ("plot", "plot_periodicity"),
-                        ("pp", "plot_patient_periodicity")):
-            if c[k] is not None or c.get("explicit_none"):
-                kw[name] = c[k]
-        if c["path"]:
-            p = os.path.join(work, "logs")
-            kw["path"] = p
-            if c["dne"]:
-                os.makedirs(os.path.join(p, "plots"), exist_ok=True)
-                open(os.path.join(p, "plots", "old.txt"), "w").write("x")
-        if c["ow"]:
-            kw["overwrite_logs_folder"] = True
+        kw = log_kwargs(c, work)
         m = E.model_factory("logistic", dimension=3, source_dimension=1)
-        with Recorder(E) as rec:
+        with Recorder(E) as rec, D.DrawRecorder(3) as dr:
             try:
                 with core.quiet():
-                    m.fit(data, "mcmc_saem", n_iter=N_ITER, n_burn_in_iter=2, seed=3, progress_bar=False, **kw)
+                    m.fit(data, "mcmc_saem", n_iter=n_iter, n_burn_in_iter=2, seed=3, progress_bar=False, **kw)
                 err = None
             except Exception as e:  # noqa
                 err = e
         cj = log_case_json(c)
+        if err is None and book is not None:
+            book.add(f"fit logistic (logging grid) n_iter={n_iter}", "logging " + " ".join(f"{k}={c[k]}" for k in ("path", "print", "save", "plot", "pp")),
+                     cj, dr, logging_search(E, data, c, tmp))
         # ---- the property's own predicate -------------------------------------------------------------
         def eff(v):
             return v if (isinstance(v, int) and v >= 1) else None
@@ -174,7 +334,7 @@ def run_logging_case(chk, E, c, data, baseline, tmp):
         if rec.h1:
             chk.impl_failure(cj, f"independent values of model.state changed during logging at iterations {rec.h1[:5]}")
         acts = []
-        for k in range(1, N_ITER + 1):
+        for k in range(1, n_iter + 1):
             s = "".join(l for (it, l) in rec.events if it == k)
             acts.append(s or "_")
         # root folder exists?
@@ -204,7 +364,7 @@ def lean_line(c):
     def f(v):
         return "none" if v is None else str(v)
     return (f"log path={int(c['path'])} print={f(c['print'])} save={f(c['save'])} plot={f(c['plot'])} pp={f(c['pp'])} "
-            f"ow={int(c['ow'])} other=0 dne={int(c['dne'])} n={N_ITER}")
+            f"ow={int(c['ow'])} other=0 dne={int(c['dne'])} n={n_of(c)}")
 
 
 def logging_cases(chk):
@@ -228,6 +388,10 @@ def logging_cases(chk):
         dict(path=False, print=None, save=2, plot=4, pp=None, ow=False, dne=False),          # default folder + plot
         dict(path=True, print=None, save=None, plot=0, pp=None, ow=False, dne=False),        # plot ignored → no save needed
         dict(path=False, print=None, save=None, plot=None, pp=None, ow=False, dne=False),
+        # every logging action at every iteration of a longer fit, and every action at iteration 7 only: the recorded draw
+        # programs then contain each action at iteration numbers the 6-iteration grid never reaches
+        dict(path=True, print=1, save=1, plot=1, pp=1, ow=False, dne=False, n=8),
+        dict(path=True, print=7, save=7, plot=7, pp=7, ow=False, dne=False, n=8),
     ]
     if chk.tier == "quick":
         cheap = [c for c in full if plots(c) == 0]
@@ -240,23 +404,57 @@ def logging_cases(chk):
     return extra + sel
 
 
-def part_a(chk, E, tmp):
+def make_baselines(chk, E, data, tmp, book=None):
+    """reference fits without logging, one per number of iterations: first unrecorded (the digests every logging case is compared
+    with), then once more with the draw recorder on (its program is the reference of the subject; same digests required)"""
+    cache = {}
+
+    def get(n):
+        if n in cache:
+            return cache[n]
+        work = tempfile.mkdtemp(prefix="base_", dir=tmp)
+        cwd = os.getcwd()
+        os.chdir(work)
+        try:
+            m = E.model_factory("logistic", dimension=3, source_dimension=1)
+            with core.quiet():
+                m.fit(data, "mcmc_saem", n_iter=n, n_burn_in_iter=2, seed=3, progress_bar=False)
+            cache[n] = {"params": params_digest(m), "full": full_digest(m)}
+            m2 = E.model_factory("logistic", dimension=3, source_dimension=1)
+            with D.DrawRecorder(3) as dr:
+                with core.quiet():
+                    m2.fit(data, "mcmc_saem", n_iter=n, n_burn_in_iter=2, seed=3, progress_bar=False)
+            cj = {"part": "logging", "path": False, "print": None, "save": None, "plot": None, "pp": None, "ow": False, "dne": False, "n": n}
+            if params_digest(m2) != cache[n]["params"] or full_digest(m2) != cache[n]["full"]:
+                chk.impl_failure(cj, "the same seeded fit without logging, repeated with the draw recorder on, differs bitwise")
+            if book is not None:
+                book.add(f"fit logistic (logging grid) n_iter={n}", "no logging", cj, dr, None)
+        finally:
+            os.chdir(cwd)
+            shutil.rmtree(work, ignore_errors=True)
+        return cache[n]
+    return get
+
+
+CASE_KEYS = ("path", "print", "save", "plot", "pp", "ow", "dne")
+
+
+def clean_case(c):
+    d = {k: c[k] for k in CASE_KEYS}
+    if c.get("n"):
+        d["n"] = c["n"]
+    return d
+
+
+def part_a(chk, E, tmp, book=None):
     _, data = A.cohort("multi")
-    work = tempfile.mkdtemp(prefix="base_", dir=tmp)
-    cwd = os.getcwd()
-    os.chdir(work)
-    try:
-        m = E.model_factory("logistic", dimension=3, source_dimension=1)
-        with core.quiet():
-            m.fit(data, "mcmc_saem", n_iter=N_ITER, n_burn_in_iter=2, seed=3, progress_bar=False)
-        baseline = {"params": params_digest(m), "full": full_digest(m)}
-    finally:
-        os.chdir(cwd)
+    baselines = make_baselines(chk, E, data, tmp, book)
+    baselines(N_ITER)
     cases = [c["case"] for c in core.load_corpus(PROP) if c.get("case", {}).get("part") == "logging"]
-    cases = [{k: c[k] for k in ("path", "print", "save", "plot", "pp", "ow", "dne")} for c in cases] + logging_cases(chk)
+    cases = [clean_case(c) for c in cases] + logging_cases(chk)
     answers = []
     for c in cases:
-        ans = run_logging_case(chk, E, c, data, baseline, tmp)
+        ans = run_logging_case(chk, E, c, data, baselines, tmp, book)
         answers.append(ans)
         nontriv = c["path"] or any(c[k] is not None for k in ("print", "save", "plot", "pp"))
         chk.case(("log", tuple(sorted(c.items()))), nontrivial=nontriv,
@@ -315,9 +513,33 @@ def unrelated_calls(E, rng, model_path, data):
 HISTORIES = ["repeat", "python", "numpy", "torch", "all", "reseed", "unrelated-fit", "unrelated-calls"]
 
 
-def part_b(chk, E, tmp):
+GEN_HISTORY = {"0": "python", "1": "numpy", "2": "torch"}
+
+
+def history_search(E, rng, name, thunk, ref, p, multi):
+    """bitwise differential runs aimed at ONE subject: the histories that move the generator the analysis points at first"""
+    def search(answer, rec):
+        fb = answer.get("firstbad", "none").split(":")
+        aimed = [GEN_HISTORY[fb[2]]] if len(fb) == 3 and fb[2] in GEN_HISTORY else []
+        for h in aimed + ["all", "reseed", "repeat", "unrelated-fit"] + aimed:
+            try:
+                if h == "unrelated-fit":
+                    unrelated_fit(E, rng)
+                elif h != "repeat":
+                    consume(E, h, rng)
+                got = thunk()
+            except Exception as e:  # noqa
+                return ({"part": "history", "subject": name, "history": h}, f"{name} after '{h}': raised {type(e).__name__}: {str(e)[:100]}")
+            if got != ref:
+                return ({"part": "history", "subject": name, "history": h},
+                        f"{name}: result after history '{h}' differs bitwise from the first run")
+        return None
+    return search
+
+
+def part_b(chk, E, tmp, book=None):
     rng = chk.rng
-    subjects = []      # (name, thunk returning digest)
+    subjects = []      # (name, thunk returning digest, seed of the run)
     _, multi = A.cohort("multi")
     _, uni = A.cohort("uni")
     dfj, joint = A.cohort("joint", n_ind=6)
@@ -331,14 +553,14 @@ def part_b(chk, E, tmp):
         return f
     rng_iter = rng.randrange(12, 21)
     seed = rng.randrange(1000)
-    subjects.append((f"fit logistic seed={seed} n_iter={rng_iter}", fit_thunk("logistic", multi, seed, dimension=3, source_dimension=2)))
-    subjects.append((f"fit linear-univariate seed={seed}", fit_thunk("linear", uni, seed, dimension=1)))
+    subjects.append((f"fit logistic seed={seed} n_iter={rng_iter}", fit_thunk("logistic", multi, seed, dimension=3, source_dimension=2), seed))
+    subjects.append((f"fit linear-univariate seed={seed}", fit_thunk("linear", uni, seed, dimension=1), seed))
     # a documented option of every model: initial parameters drawn at random (the seed of the run must cover them, F32)
     subjects.append((f"fit logistic random-initialization seed={seed}",
-                     fit_thunk("logistic", multi, seed, dimension=3, source_dimension=2, initialization_method="random")))
+                     fit_thunk("logistic", multi, seed, dimension=3, source_dimension=2, initialization_method="random"), seed))
     if chk.tier == "thorough":
-        subjects.append((f"fit shared_speed seed={seed}", fit_thunk("shared_speed_logistic", multi, seed, dimension=3, source_dimension=1)))
-        subjects.append((f"fit joint seed={seed}", fit_thunk("joint", joint, seed, dimension=4, source_dimension=1)))
+        subjects.append((f"fit shared_speed seed={seed}", fit_thunk("shared_speed_logistic", multi, seed, dimension=3, source_dimension=1), seed))
+        subjects.append((f"fit joint seed={seed}", fit_thunk("joint", joint, seed, dimension=4, source_dimension=1), seed))
     # a fitted model for personalisation / simulation (loaded from its own file: no leftovers of the fit)
     base = E.model_factory("logistic", dimension=3, source_dimension=2)
     with core.quiet():
@@ -366,27 +588,29 @@ def part_b(chk, E, tmp):
             ip = res.individual_parameters
             return A.obj_digest((A.df_digest(res.data.to_dataframe()), A.df_digest(ip) if isinstance(ip, E.pd.DataFrame) else A.ip_digest(ip)))
         return f
-    subjects.append((f"personalize mean_posterior seed={seed}", perso_thunk("mean_posterior", seed, n_iter=15)))
-    subjects.append((f"personalize mode_posterior seed={seed}", perso_thunk("mode_posterior", seed, n_iter=15)))
-    subjects.append((f"personalize scipy_minimize seed={seed}", perso_thunk("scipy_minimize", seed)))
+    subjects.append((f"personalize mean_posterior seed={seed}", perso_thunk("mean_posterior", seed, n_iter=15), seed))
+    subjects.append((f"personalize mode_posterior seed={seed}", perso_thunk("mode_posterior", seed, n_iter=15), seed))
+    subjects.append((f"personalize scipy_minimize seed={seed}", perso_thunk("scipy_minimize", seed), seed))
     # the same request served by a pool of worker processes (workers are reused between calls: their generators are part of
     # the process history)
-    subjects.append((f"personalize scipy_minimize n_jobs=2 seed={seed}", perso_thunk("scipy_minimize", seed, n_jobs=2)))
-    subjects.append((f"simulate seed={seed}", sim_thunk(seed)))
-    subjects.append(("simulate seed=0", sim_thunk(0)))          # 0 is a seed like any other
+    subjects.append((f"personalize scipy_minimize n_jobs=2 seed={seed}", perso_thunk("scipy_minimize", seed, n_jobs=2), seed))
+    subjects.append((f"simulate seed={seed}", sim_thunk(seed), seed))
+    subjects.append(("simulate seed=0", sim_thunk(0), 0))          # 0 is a seed like any other
     # reference results first, all of them, before any other activity took place in this interpreter
     # (an activity that leaves something behind would otherwise already be part of a later subject's reference)
+    # (they stay unrecorded: every later run is recorded, so each bitwise comparison also says that recording changes nothing)
     refs = {}
-    for name, thunk in subjects:
+    for name, thunk, _ in subjects:
         try:
             refs[name] = thunk()
         except Exception as e:
             chk.impl_failure({"part": "history", "subject": name, "history": "first run"},
                              f"{name}: raised {type(e).__name__}: {str(e)[:100]}")
-    for name, thunk in subjects:
+    for name, thunk, run_seed in subjects:
         if name not in refs:
             continue
         ref = refs[name]
+        search = history_search(E, rng, name, thunk, ref, p, multi)
         hists = HISTORIES if chk.tier == "thorough" or name.startswith(("fit logistic", "simulate")) else rng.sample(HISTORIES, 4)
         if name.startswith("personalize") and "unrelated-calls" not in hists:
             hists = list(hists) + ["unrelated-calls"]
@@ -399,17 +623,20 @@ def part_b(chk, E, tmp):
                     unrelated_calls(E, rng, p, multi)
                 elif h != "repeat":
                     consume(E, h, rng)
-                got = thunk()
+                with D.DrawRecorder(run_seed) as dr:
+                    got = thunk()
             except Exception as e:
                 chk.impl_failure(cj, f"{name} after '{h}': raised {type(e).__name__}: {str(e)[:100]}")
                 continue
+            if book is not None:
+                book.add(name, h, cj, dr, search)
             if got != ref:
                 chk.impl_failure(cj, f"{name}: result after history '{h}' differs bitwise from the first run")
             chk.case(("hist", name.split(" seed")[0], h), nontrivial=h != "repeat", sample=cj if len(chk.samples) < 6 else None,
                      tags={"part": "history", "history": h, "subject": name.split(" seed")[0]})
 
 
-def ambient_dtype_part(chk, E, tmp):
+def ambient_dtype_part(chk, E, tmp, book=None):
     """Process history = a global numeric default changed by earlier code: the algorithms pin their own working precision, so a
     seeded run on objects built beforehand must not depend on torch's ambient default dtype."""
     torch = E.torch
@@ -426,19 +653,28 @@ def ambient_dtype_part(chk, E, tmp):
         cj = {"part": "history", "subject": name, "history": "ambient-default-dtype-float64"}
         try:
             with core.quiet():
-                m1, m2 = E.BaseModel.load(p), E.BaseModel.load(p)
-                ref = A.ip_digest(m1.personalize(uni, algo, seed=seed, progress_bar=False, **kw))
+                m0, m1, m2 = E.BaseModel.load(p), E.BaseModel.load(p), E.BaseModel.load(p)
+                ref = A.ip_digest(m0.personalize(uni, algo, seed=seed, progress_bar=False, **kw))
+                with D.DrawRecorder(seed) as dr1:
+                    again = A.ip_digest(m1.personalize(uni, algo, seed=seed, progress_bar=False, **kw))
                 old = torch.get_default_dtype()
                 torch.set_default_dtype(torch.float64)
                 try:
-                    got = A.ip_digest(m2.personalize(uni, algo, seed=seed, progress_bar=False, **kw))
+                    with D.DrawRecorder(seed) as dr2:
+                        got = A.ip_digest(m2.personalize(uni, algo, seed=seed, progress_bar=False, **kw))
                 finally:
                     torch.set_default_dtype(old)
         except Exception as e:  # noqa
             chk.impl_failure(cj, f"{name}: raised {type(e).__name__}: {str(e)[:100]}")
             continue
+        if again != ref:
+            chk.impl_failure({**cj, "history": "repeat"}, f"{name}: repeated with the draw recorder on, the result differs bitwise")
         if got != ref:
             chk.impl_failure(cj, f"{name}: result under an ambient default dtype of float64 differs bitwise from the plain run")
+        if book is not None:
+            # the draw kinds carry the dtype of what is drawn: a run whose draws follow the ambient dtype shows in its program
+            book.add(name, "repeat", {**cj, "history": "repeat"}, dr1, None)
+            book.add(name, "ambient-default-dtype-float64", cj, dr2, None)
         chk.case(("hist", name.split(" seed")[0], "ambient-dtype"), nontrivial=True, tags={"part": "history", "history": "ambient-dtype",
                                                                                            "subject": name.split(" seed")[0]})
 
@@ -466,12 +702,15 @@ def run(chk: core.Check):
                 "(periodicities in {None,1,2,3,5} for print/save/plot/patient-plot x path, sampled from the 1250-point grid, plus ignored "
                 "values 0/-1, non-empty folder with/without overwrite); non-trivial when any logging option is set. history: one case = "
                 "one seeded run (fit / mean / mode / scipy personalisation / simulate) repeated after a given prior activity; non-trivial "
-                "when the activity is not a plain repeat.")
+                "when the activity is not a plain repeat. draw programs: every one of these runs except the reference runs is recorded "
+                "(draws_c11.py) and analysed by the driver (one `draws` line each).")
     tmp = tempfile.mkdtemp(prefix="c11_")
+    book = DrawBook()
     try:
-        part_a(chk, E, tmp)
-        part_b(chk, E, tmp)
-        ambient_dtype_part(chk, E, tmp)
+        part_a(chk, E, tmp, book)
+        part_b(chk, E, tmp, book)
+        ambient_dtype_part(chk, E, tmp, book)
+        check_draw_programs(chk, book)
         probe_findings(chk, E, tmp)
     finally:
         shutil.rmtree(tmp, ignore_errors=True)
@@ -481,27 +720,21 @@ def replay(chk: core.Check, payload):
     E = A.env()
     case = payload.get("case") or (payload.get("disagreements") or [{}])[0].get("case")
     tmp = tempfile.mkdtemp(prefix="c11_")
+    book = DrawBook()
     try:
         if case and case.get("part") == "logging":
-            c = {k: case[k] for k in ("path", "print", "save", "plot", "pp", "ow", "dne")}
+            c = clean_case(case)
             _, data = A.cohort("multi")
-            work = tempfile.mkdtemp(prefix="base_", dir=tmp)
-            cwd = os.getcwd()
-            os.chdir(work)
-            try:
-                m = E.model_factory("logistic", dimension=3, source_dimension=1)
-                with core.quiet():
-                    m.fit(data, "mcmc_saem", n_iter=N_ITER, n_burn_in_iter=2, seed=3, progress_bar=False)
-                baseline = {"params": params_digest(m), "full": full_digest(m)}
-            finally:
-                os.chdir(cwd)
-            ans = run_logging_case(chk, E, c, data, baseline, tmp)
+            baselines = make_baselines(chk, E, data, tmp, book)
+            ans = run_logging_case(chk, E, c, data, baselines, tmp, book)
             chk.case(("log", tuple(sorted(c.items()))), sample=case)
             out = chk.model([lean_line(c)])
             if out[0] != ans:
                 chk.disagree(case, ans, out[0], "logging outcome / actions fired per iteration")
         else:
             # history cases depend on the whole sequence of prior activity: re-run part B
-            part_b(chk, E, tmp)
+            part_b(chk, E, tmp, book)
+            ambient_dtype_part(chk, E, tmp, book)
+        check_draw_programs(chk, book)
     finally:
         shutil.rmtree(tmp, ignore_errors=True)
